@@ -66,6 +66,10 @@ def desc(order, sc):
     return all(sc[order[i]] >= sc[order[i + 1]] for i in range(len(order) - 1))
 
 
+class _Mismatch(Exception):
+    pass
+
+
 def check_trace(t):
     """returns a list of (clause, event index) problems; [] = accepted.  STV / IRV / SequentialRCV with the fractional or full transfer."""
     cfg = t["cfg"]
@@ -99,77 +103,93 @@ def check_trace(t):
             return probs + [("RoundAfter:" + status, i)]
         if e.get("thr", thr) not in (thr, -1):
             probs.append(("Threshold", i))
-        above = {c for c in cur if sc[c] >= thr}
-        standing = group(sc, cur)
-        el, out, tbs = e["elected"], e["eliminated"], e["tiebreaks"]
-        seats_left = m - len(elected)
+        try:
+            above = {c for c in cur if sc[c] >= thr}
+            standing = group(sc, cur)
+            el, out, tbs = e["elected"], e["eliminated"], e["tiebreaks"]
+            seats_left = m - len(elected)
 
-        def transfer(W):
-            p = dict(prof)
-            if cfg["xfer"] == "fractional":
-                for r in list(p):
-                    if len(r[0]) == 1 and r[0][0] in W:
-                        tw = sc[r[0][0]]
-                        p[r] = p[r] * ((tw - thr) / tw if tw != 0 else 0)
-            return strip(p, W)
+            def transfer(W):
+                p = dict(prof)
+                if cfg["xfer"] == "fractional":
+                    for r in list(p):
+                        if len(r[0]) == 1 and r[0][0] in W:
+                            tw = sc[r[0][0]]
+                            p[r] = p[r] * ((tw - thr) / tw if tw != 0 else 0)
+                return strip(p, W)
 
-        if above:
-            if cfg["simul"]:
-                want_el = [g for g in standing if set(g) <= above]
-                if el != want_el or out or tbs:
-                    return probs + [("Who", i)]
-                W = {c for g in want_el for c in g}
+            if above:
+                if cfg["simul"]:
+                    want_el = [g for g in standing if set(g) <= above]
+                    if el != want_el or out or tbs:
+                        raise _Mismatch(("Who", i))
+                    W = {c for g in want_el for c in g}
+                else:
+                    T = standing[0]
+                    if len(el) != 1 or len(el[0]) != 1 or el[0][0] not in T or out:
+                        raise _Mismatch(("Who", i))
+                    w = el[0][0]
+                    if len(T) > 1:
+                        if cfg["tb"] == "none" or len(tbs) != 1 or tbs[0]["tied"] != sorted(T):
+                            raise _Mismatch(("Tiebreak", i))
+                        order = [g[0] for g in tbs[0]["order"] if len(g) == 1]
+                        if sorted(order) != sorted(T) or order[0] != w:
+                            raise _Mismatch(("Tiebreak", i))
+                        if cfg["tb"] in ("borda", "first_place") and not desc(order, borda(prof, cur) if cfg["tb"] == "borda" else fpv(prof, cur)):
+                            raise _Mismatch(("Tiebreak", i))
+                    elif tbs:
+                        raise _Mismatch(("Tiebreak", i))
+                    W = {w}
+                newp = transfer(W)
+                newcur = cur - W
+                elected += sorted(W)
+                if len(elected) > m:
+                    status = "overelected"
+                elif len(elected) == m:
+                    status = "finished"
+            elif len(cur) == seats_left:
+                if el != standing or out or tbs:
+                    raise _Mismatch(("Who", i))
+                newp, newcur = {}, set()
+                elected += sorted(cur)
+                status = "finished" if len(elected) == m else "running"
             else:
-                T = standing[0]
-                if len(el) != 1 or len(el[0]) != 1 or el[0][0] not in T or out:
-                    return probs + [("Who", i)]
-                w = el[0][0]
-                if len(T) > 1:
-                    if cfg["tb"] == "none" or len(tbs) != 1 or tbs[0]["tied"] != sorted(T):
-                        return probs + [("Tiebreak", i)]
+                L = standing[-1]
+                if el or len(out) != 1 or len(out[0]) != 1 or out[0][0] not in L:
+                    raise _Mismatch(("Who", i))
+                c = out[0][0]
+                if len(L) > 1:
+                    if len(tbs) != 1 or tbs[0]["tied"] != sorted(L):
+                        raise _Mismatch(("Tiebreak", i))
                     order = [g[0] for g in tbs[0]["order"] if len(g) == 1]
-                    if sorted(order) != sorted(T) or order[0] != w:
-                        return probs + [("Tiebreak", i)]
-                    if cfg["tb"] in ("borda", "first_place") and not desc(order, borda(prof, cur) if cfg["tb"] == "borda" else fpv(prof, cur)):
-                        return probs + [("Tiebreak", i)]
+                    if sorted(order) != sorted(L) or order[-1] != c or not desc(order, init_fpv):
+                        raise _Mismatch(("Tiebreak", i))
                 elif tbs:
-                    return probs + [("Tiebreak", i)]
-                W = {w}
-            newp = transfer(W)
-            newcur = cur - W
+                    raise _Mismatch(("Tiebreak", i))
+                newp, newcur = strip(prof, {c}), cur - {c}
+                eliminated.append(c)
+            if bag_of(e["bag"]) != newp:
+                raise _Mismatch(("Bag", i))
+            newsc = fpv(newp, newcur)
+            if sorted([[c, [v.numerator, v.denominator]] for c, v in newsc.items()]) != e["scores"]:
+                raise _Mismatch(("Scores", i))
+            if e["remaining"] != group(newsc, newcur):
+                raise _Mismatch(("Remaining", i))
+        except _Mismatch as mm:
+            # the logged round is not the step the specification takes: report it and re-synchronise on the logged round so that the rest of
+            # the count is still examined (as ElectionTrace does)
+            probs.append(mm.args[0])
+            W = {c for g in el for c in g}
+            newp = bag_of(e["bag"])
+            newcur = {c for g in e["remaining"] for c in g}
             elected += sorted(W)
-            if len(elected) > m:
-                status = "overelected"
-            elif len(elected) == m:
-                status = "finished"
-        elif len(cur) == seats_left:
-            if el != standing or out or tbs:
-                return probs + [("Who", i)]
-            newp, newcur = {}, set()
-            elected += sorted(cur)
-            status = "finished" if len(elected) == m else "running"
-        else:
-            L = standing[-1]
-            if el or len(out) != 1 or len(out[0]) != 1 or out[0][0] not in L:
-                return probs + [("Who", i)]
-            c = out[0][0]
-            if len(L) > 1:
-                if len(tbs) != 1 or tbs[0]["tied"] != sorted(L):
-                    return probs + [("Tiebreak", i)]
-                order = [g[0] for g in tbs[0]["order"] if len(g) == 1]
-                if sorted(order) != sorted(L) or order[-1] != c or not desc(order, init_fpv):
-                    return probs + [("Tiebreak", i)]
-            elif tbs:
-                return probs + [("Tiebreak", i)]
-            newp, newcur = strip(prof, {c}), cur - {c}
-            eliminated.append(c)
-        if bag_of(e["bag"]) != newp:
-            return probs + [("Bag", i)]
-        newsc = fpv(newp, newcur)
-        if sorted([[c, [v.numerator, v.denominator]] for c, v in newsc.items()]) != e["scores"]:
-            return probs + [("Scores", i)]
-        if e["remaining"] != group(newsc, newcur):
-            return probs + [("Remaining", i)]
+            eliminated += sorted(c for g in out for c in g)
+            newsc = {c: F(v[0], v[1]) for c, v in e["scores"]}
+            if set(newsc) != newcur or not ({c for r in newp for g in r for c in g} <= newcur):
+                return probs            # the logged round is not coherent enough to go on from
+            status = "overelected" if len(elected) > m else "finished" if len(elected) == m else "running"
+            prof, cur, sc = newp, newcur, newsc
+            continue
         # monitors
         if sum(newp.values(), F(0)) > sum(prof.values(), F(0)):
             probs.append(("Conservation", i))
